@@ -79,7 +79,9 @@ class EssentialBC(BasicBoundaryCondition):
             if isinstance(u.space, VectorFunctionSpace):
                 order_0_expr += [dot(u, nn)]
 
-            order_1_expr += [dot(grad(u), nn)]
+            # the candidate is only compared with lhs: do not evaluate grad(u),
+            # which refuses functions of Hcurl/Hdiv/L2 spaces
+            order_1_expr += [dot(grad(u, evaluate=False), nn)]
         # ...
 
         # ...
